@@ -9,6 +9,8 @@ import (
 	"encoding/base64"
 	"fmt"
 	"go/types"
+	"sort"
+	"strings"
 
 	"golang.org/x/tools/go/ssa"
 )
@@ -492,6 +494,15 @@ func (e *Exec) idealCFB(fn *ssa.Function, args []Value) (Value, bool) {
 	if name != enc && name != dec {
 		return nil, false
 	}
+	// the substitution stands for "AES-CFB through crypto/cipher's stream": it applies only while
+	// the method is still written that way
+	want := []string{"crypto/cipher.NewCFBDecrypter", "fmt.Errorf", "invoke:XORKeyStream"}
+	if name == enc {
+		want = []string{"crypto/cipher.NewCFBEncrypter", "fmt.Errorf", "invoke:XORKeyStream", "io.ReadFull"}
+	}
+	if extra := calleesOutside(fn, want); len(extra) > 0 {
+		e.unsupported("%s no longer is crypto/cipher's CFB stream over the value (calls %s): the ideal-cipher substitution does not apply", name, strings.Join(extra, ", "))
+	}
 	recv := args[0].(*Pointer)
 	blk := e.load(recv.sub(0)).(*IfaceVal)
 	key := blk.val.(*OpaqueVal).data.(*Term)
@@ -607,4 +618,47 @@ func (w *World) registerSessionCodecIntrinsics() {
 		}
 		return tuple(&SliceVal{isNil: true}, e.newError("lz4: invalid data"))
 	}
+}
+
+// calleesOutside lists what fn calls (static callees by name, interface methods as
+// "invoke:<method>", builtins ignored) beyond the allowed set.
+func calleesOutside(fn *ssa.Function, allowed []string) []string {
+	ok := map[string]bool{}
+	for _, a := range allowed {
+		ok[a] = true
+	}
+	seen := map[string]bool{}
+	var out []string
+	for _, b := range fn.Blocks {
+		for _, ins := range b.Instrs {
+			var c *ssa.CallCommon
+			switch x := ins.(type) {
+			case *ssa.Call:
+				c = &x.Call
+			case *ssa.Defer:
+				c = &x.Call
+			case *ssa.Go:
+				c = &x.Call
+			}
+			if c == nil {
+				continue
+			}
+			n := ""
+			if c.IsInvoke() {
+				n = "invoke:" + c.Method.Name()
+			} else if sc := c.StaticCallee(); sc != nil {
+				n = sc.String()
+			} else if _, isB := c.Value.(*ssa.Builtin); isB {
+				continue
+			} else {
+				n = "dynamic call"
+			}
+			if !ok[n] && !seen[n] {
+				seen[n] = true
+				out = append(out, n)
+			}
+		}
+	}
+	sort.Strings(out)
+	return out
 }
